@@ -16,11 +16,12 @@ LEVEL_TEXT = ("Lean theorems: C04_chunking / C04_complete_lines (for every way o
               "C04_perc_after_drop_partial (after a drop the next delivered line reports < 100 while fewer than ringSize lines went by); "
               "tied to the code by running the real TailFile.Start with a scripted writer and consumer: the delivered lines (count, "
               "percentage, content) must be reproduced by the model when it is replayed with the observed set of deliveries, and Go's "
-              "float percentOf is compared with the integer formula on all 5 151 (matched, transmitted) pairs")
+              "float percentOf is compared with the integer formula on all 5 151 (matched, transmitted) pairs; tie G: C04_generated_code_refines_model — stats.go and readFile.transmittable as translated from the working tree on every run are the model's updatePosition / processLine (gen.stats runs translated and real code on the same scripts); c04.tail also pauses the writer for seconds in the middle of a line and starts follows inside an unfinished line")
 TRUSTED = ["Lean 4 kernel", "axioms: propext, Quot.sound, Classical.choice (at most)", "fact extractor (ring size, modulus, tail reader modes)",
            "overlay harness + dtmodel driver + this diff",
            "modelled not verified: kernel visibility of appended bytes, the 100 ms poll timing (which lines find the queue full is taken from the "
-           "observation), Go regexp, the truncation / re-open loop (outside the quantifier)"]
+           "observation), Go regexp, the truncation / re-open loop (outside the quantifier)",
+           "the Go-to-Lean translator extract/translate.go and its prelude Model/GoRT.lean (int/uint64/float64 as Int, strings as bytes, maps as association lists; translated and real functions run on the same scripts on every run)"]
 ASSUMPTIONS = ["the file is only appended to while it is followed"]
 RULE = ("seeded scripts: 0..150 appended lines written in chunks that split lines and multi-byte characters, bursts, pauses around polls, "
         "MaxLineLength splits, with and without a filter regex, ample (100) and tiny (1) delivery queues with a stalled consumer (drops); "
